@@ -29,7 +29,6 @@ CONSTANTS NN, NLow,          \* base nodes 1..NN, the first NLow of them sort be
           Dts,               \* tick lengths in half-lives (factor 2^-n)
           Ops,               \* subset of {"observe","tick","merge","split","promote","gate","turn"}
           MaxDepth,
-          Tolerate,          \* causes of open, listed findings (normally {})
           CheckPerms         \* evaluate ObserveOrderInsensitive inside TLC (costly)
 
 VARIABLES g,      \* [edges : canonical pair -> [w, rel], nodes : set of concept nodes, merges, splits]
@@ -200,9 +199,14 @@ Bags == UNION {{s \in [1..n -> 1..NI] : NonDecr(s)} : n \in 0..MaxItems}
 ItemsOf(b) == [i \in 1..Len(b) |-> ItemOf(b[i])]
 
 InClamp(w, c) == c.lo <= w /\ w <= c.hi
-Configs == {[mode |-> m, aden |-> a, lo |-> cl[1], hi |-> cl[2], floor |-> f, thr |-> t, topk |-> k, cap |-> p, mt |-> mt] :
-              m \in Modes, a \in AlphaDens, cl \in Clamps, f \in Floors, t \in Thresholds, k \in TopKs,
-              p \in PairCaps, mt \in Maints}
+\* documented ranges (configs/validate.py messages for graph.*): clamp_min < clamp_max,
+\* clamp_min <= 0 <= clamp_max (weights decay towards 0), 0 <= floor <= clamp_max, threshold in [0, 1],
+\* top-k >= 1, pair cap >= 0, alpha > 0
+Accepted(c) == c.lo < c.hi /\ c.lo <= 0 /\ 0 <= c.hi /\ 0 <= c.floor /\ c.floor <= c.hi
+               /\ 0 <= c.thr /\ c.thr <= D /\ c.topk >= 1 /\ c.cap >= 0 /\ c.aden >= 1
+Configs == {c \in {[mode |-> m, aden |-> a, lo |-> cl[1], hi |-> cl[2], floor |-> f, thr |-> t, topk |-> k, cap |-> p, mt |-> mt] :
+                     m \in Modes, a \in AlphaDens, cl \in Clamps, f \in Floors, t \in Thresholds, k \in TopKs,
+                     p \in PairCaps, mt \in Maints} : Accepted(c)}
 
 Init == /\ cfg \in Configs
         /\ \E e \in InitGraphs :
@@ -238,13 +242,10 @@ SpecD == Init /\ [][DepthA /\ Next]_vars
 -----------------------------------------------------------------------------
 (* C18 clauses *)
 E == g.edges
-Cause(w) == IF cfg.lo > 0 /\ w >= 0 /\ w < cfg.lo THEN "tick-below-clamp-min"
-            ELSE IF cfg.hi < 0 /\ w <= 0 /\ w > cfg.hi THEN "tick-above-clamp-max" ELSE "other"
-\* co-activation edges stay inside the clamp; attachment edges inside the attach range [-1, 1]
+\* co-activation edges stay inside the clamp; attachment edges inside the attach range [-1, 1].
+\* The validator requires clamp_min <= 0 <= clamp_max, so decay (towards 0) cannot leave the range.
 WithinClamp == \A k \in DOMAIN E :
-    IF E[k].rel = "coact" THEN InClamp(E[k].w, cfg) \/ Cause(E[k].w) \in Tolerate ELSE Abs(E[k].w) <= D
-\* the bound that decay provably preserves: the clamp interval widened to contain 0
-WithinClampHull == \A k \in DOMAIN E : E[k].rel = "coact" => (MinI(cfg.lo, 0) <= E[k].w /\ E[k].w <= (IF cfg.hi < 0 THEN 0 ELSE cfg.hi))
+    IF E[k].rel = "coact" THEN InClamp(E[k].w, cfg) ELSE Abs(E[k].w) <= D
 
 OneEdgePerUnorderedPair ==
     /\ \A k \in DOMAIN E : k[1] <= k[2]
